@@ -84,7 +84,10 @@ func (t *Transcript) ComputeChallenge(challengeID string) ([]byte, error) {
 
 	// if the challenge was already computed we return it
 	if challenge.isComputed {
-		return challenge.value, nil
+		// return a copy: the stored value also feeds the next challenge, the caller must not alias it
+		res := make([]byte, len(challenge.value))
+		copy(res, challenge.value)
+		return res, nil
 	}
 
 	// reset before populating the internal state
